@@ -52,6 +52,10 @@ def states(kind, n, i, family):
     if family == "permuted":
         truths = (None, 0.25, 0.75)
         vals = vals[:2] if kind == "ArbiterWeighted" else vals[:1]
+    if family == "bigimp":       # importances above 1 'still work properly if non negative numbers' (Arbiter docstring)
+        imps = (0.5, 1.0, 2, 3)
+        truths = (None, 0.25, 0.75)
+        vals = vals[:2] if kind == "ArbiterWeighted" else vals[:1]
     if family == "zeroimp":      # importances over the whole documented range [0.0, 1.0] incl. both ends, int and float zero
         imps = (0, 0.0, 0.5, 1.0)
         truths = (None, 0.25, 0.75)
@@ -301,11 +305,12 @@ def run():
                 for dt in (0.0, 0.5):
                     for i0 in range(len(states(kind, n, 0, "permuted"))):
                         jobs.append(("permuted", kind, n, dt, i0, perm))
-    for n in (1, 2, 3):
-        for kind in KINDS:
-            for dt in (0.0, 0.5):
-                for i0 in range(len(states(kind, n, 0, "zeroimp"))):
-                    jobs.append(("zeroimp", kind, n, dt, i0))
+    for fam in ("zeroimp", "bigimp"):
+        for n in (1, 2, 3):
+            for kind in KINDS:
+                for dt in (0.0, 0.5):
+                    for i0 in range(len(states(kind, n, 0, fam))):
+                        jobs.append((fam, kind, n, dt, i0))
     ck.merge(core.pmap(work, jobs, chunksize=4))
     ck.assumptions = [
         "truths are normalised as documented: None/True -> 1.0, False -> 0.0, numbers clamped to [0, 1]; 'exceeds the default truth' compares the normalised truth",
@@ -318,13 +323,15 @@ def run():
         "weighted arbiter: a selected input whose value is not a number gives the default outputs (docstring); zero total weight gives the default; "
         "the average is compared with exact rational arithmetic to 1e-12",
         "default truth is a float in [0, 1] set before construction (0.0, 0.5; int 0/1 and None -> 1.0 as small families); default value is a marker string",
+        "importances above 1 are legal ('assumed to be in [0.0, 1.0] but will still work properly if non negative numbers'): 2 outranks 1 for priority and for "
+        "trusted tie-breaks and weighs twice as much in the weighted average (big-importance family, n <= 3, importance {0.5, 1.0, 2, 3})",
         "input order = the order of the inputs mapping given to the arbiter; the field order of the group's insels / inimps shares (which may exist before the "
         "arbiter is built, in any order) carries no meaning",
         "arbiters are created by Act.resolve from the Doer registry inside a resolved House/Framer/Frame and run by calling the act",
     ]
     return ck.finish(
         rule="n inputs for n = 1..%d; per input selection x truth x importance x value = 2 x 7 x 2 x (2 or 3) states (n = 4: 2 x 5 x 2 x (1 or 3)), full product, "
-             "x default truth {0.0, 0.5} x 4 arbiters; extra families for n <= 2: default truth None / int, selection in {True, False, 1, 0, None, 'x', ''}; permuted family n = 2, 3: group.insels / group.inimps pre-created with every non-identity field order, selection x truth {None, 0.25, 0.75} x importance {0.5, 1}; zero-importance family n <= 3: selection x truth {None, 0.25, 0.75} x importance {0, 0.0, 0.5, 1.0}. "
+             "x default truth {0.0, 0.5} x 4 arbiters; extra families for n <= 2: default truth None / int, selection in {True, False, 1, 0, None, 'x', ''}; permuted family n = 2, 3: group.insels / group.inimps pre-created with every non-identity field order, selection x truth {None, 0.25, 0.75} x importance {0.5, 1}; big-importance family n <= 3: the same with importance {0.5, 1.0, 2, 3}; zero-importance family n <= 3: selection x truth {None, 0.25, 0.75} x importance {0, 0.0, 0.5, 1.0}. "
              "distinct = (arbiter, n, default truth, per-input (selected, normalised truth, importance)) with at least one selected input." % nmax,
         exhaustive=True)
 
